@@ -270,6 +270,9 @@ BEHAVIOUR = [
     ("fiber-suspended-in-child-signal",
      "(def orig (fiber/new (fn [] (def ch (fiber/new (fn [] (def got (debug)) (yield [got %(a)d]) :cdone) :y)) (def r1 (resume ch)) (def r2 (resume ch)) [r1 r2 (fiber/status ch)]) :a)) (resume orig)",
      "(fn [o] (string/format \"%%j\" [(fiber/status o) (resume o %(b)d) (fiber/status o)]))"),
+    ("fiber-two-frames-closure",
+     "(defn mk [] (var getter nil) (def fb (fiber/new (fn [] (var low %(a)d) (set getter (fn [d] (+= low d))) (defn inner [x] (yield (+ x low)) (+ x 1)) (def r (inner 5)) (yield [r low]) low))) (resume fb) [fb getter]) (def orig (mk))",
+     "(fn [o] (string/format \"%%j\" [((o 1) 1) (resume (o 0)) ((o 1) %(b)d) (resume (o 0)) (fiber/status (o 0)) ((o 1) 1000)]))"),
     ("fiber-captures-shared-var",
      "(defn mk [] (var shared %(a)d) (def getter (fn [] shared)) (def fb (fiber/new (fn [] (forever (yield (++ shared)))))) (resume fb) [fb getter]) (def orig (mk))",
      "(fn [o] (string (resume (o 0)) \",\" ((o 1)) \",\" (resume (o 0)) \",\" ((o 1))))"),
